@@ -20,6 +20,11 @@ import (
 // processes and the real kernel lock).
 
 func childHoldMain(path string) {
+	if path == "-" {
+		// an unrelated child process: just lives until its stdin is closed
+		bufio.NewReader(os.Stdin).ReadString('\n')
+		return
+	}
 	db, err := wt.Open(path)
 	if err != nil {
 		fmt.Println("child-open-failed:", err)
@@ -97,5 +102,28 @@ func procProbe(t *testing.T) string {
 		return "Open in the parent did not return within 60 s after the child process closed its handle"
 	}
 	fmt.Fprintln(stdin, "exit")
-	return ""
+	// second part: a child process started while a handle is open must not keep
+	// the lock alive after the handle was closed (descriptor not inherited)
+	db2, err := wt.Open(path)
+	if err != nil {
+		return "Open failed: " + err.Error()
+	}
+	sleeper := exec.Command(os.Args[0], "-test.run", "TestWsimMain", "-wsim.childhold", "-")
+	sin, _ := sleeper.StdinPipe()
+	if err := sleeper.Start(); err != nil {
+		db2.Close()
+		return ""
+	}
+	db2.Close()
+	f2, err := os.OpenFile(path, os.O_RDWR, 0)
+	msg := ""
+	if err == nil {
+		if ferr := syscall.Flock(int(f2.Fd()), syscall.LOCK_EX|syscall.LOCK_NB); ferr != nil {
+			msg = "the lock outlives Close: a child process started while the handle was open inherited the locked descriptor (non-blocking flock after Close refused: " + ferr.Error() + ")"
+		}
+		f2.Close()
+	}
+	sin.Close()
+	sleeper.Wait()
+	return msg
 }
